@@ -218,7 +218,12 @@ impl GStore {
             }
             RatingMode::AllEqual => 10,
             RatingMode::Huge => loop {
-                let r = if rng.chance(1, 2) { (1usize << 31) - 4 + rng.below(8) } else { rng.below(1usize << 62) };
+                // around 2^31, anywhere below 2^62, or anywhere in usize (upper half included)
+                let r = match rng.below(3) {
+                    0 => (1usize << 31) - 4 + rng.below(8),
+                    1 => rng.below(1usize << 62),
+                    _ => rng.next_u64() as usize,
+                };
                 if !self.used_ratings.contains(&r) {
                     break r;
                 }
